@@ -1342,6 +1342,36 @@ func inpKeyPartsLog(args []string) []string {
 	return out
 }
 
+// inpRenameTable rewrites the table "ta" of log-form vectors to a non-UTF-8 name and drops the
+// vectors that would let a collection grow towards the 128-element metric threshold.
+func inpRenameTable(vecs [][]string) [][]string {
+	grow := map[string]bool{"lpush": true, "rpush": true, "sadd": true, "zadd": true, "hmset": true, "hset": true, "hsetnx": true,
+		"geoadd": true, "hincrby": true, "zincrby": true}
+	added := map[string]int{}
+	var out [][]string
+	for _, v := range vecs {
+		if len(v) < 2 || !strings.HasPrefix(v[1], "ta:") {
+			continue
+		}
+		name := strings.ToLower(v[0])
+		if grow[name] {
+			// every vector is applied twice on this path
+			if added[v[1]]+2*len(v) > 100 {
+				continue
+			}
+			added[v[1]] += 2 * len(v)
+		}
+		c := append([]string{}, v...)
+		for i := 1; i < len(c); i++ {
+			if strings.HasPrefix(c[i], "ta:") && (i == 1 || name == "del" || name == "plset" || name == "exists") {
+				c[i] = "\xff\xfe:" + c[i][3:]
+			}
+		}
+		out = append(out, c)
+	}
+	return out
+}
+
 // inpLogTrigger: inpKnownTrigger for a vector in log form (namespace already cut).
 func inpLogTrigger(v []string) string {
 	c := append([]string{}, v...)
@@ -1375,14 +1405,31 @@ func inpApplyPath(d *inpDrv, outp string, parts int, seed int64, group int, isol
 			inpApplySegment(d, cf[0], cf[1], seg, st)
 			seg = nil
 		}
+		var first [][]string
 		for _, v := range d.accepted {
 			if v == nil {
+				if first == nil && len(seg) > 0 {
+					first = append([][]string{}, seg...)
+				}
 				flush()
 				continue
 			}
 			seg = append(seg, v)
 		}
+		if first == nil && len(seg) > 0 {
+			first = append([][]string{}, seg...)
+		}
 		flush()
+		// narrowed avoid rule of finding C11-nonutf8-table-metric-label: its trigger is a collection
+		// growing past 128 elements (or a slow write under the server's slow limiter) on a table
+		// whose name is not valid UTF-8 - not non-UTF-8 tables as such.  The accepted vectors of the
+		// first child are applied once more with the table renamed to \xff\xfe (the leader-side
+		// checks do not look at table bytes), keeping every collection below 100 elements; there
+		// is no slow limiter on this path.
+		if isolate == "" && len(first) > 0 {
+			seg = inpRenameTable(first)
+			flush()
+		}
 		tw.Close()
 	}
 	return st
